@@ -300,8 +300,10 @@ func (c *compiler) compileType(y *Type, parent Leafable, isUnion bool) error {
 		resolvedMeta := Find(parent, y.path)
 		if resolvedMeta == nil {
 			return fmt.Errorf("%s - %s path cannot be resolved", SchemaPath(parent), y.ident)
+		} else if target, hasType := resolvedMeta.(HasType); hasType {
+			y.delegate = target.Type()
 		} else {
-			y.delegate = resolvedMeta.(HasType).Type()
+			return fmt.Errorf("%s - %s path leads to %s which is not a leaf", SchemaPath(parent), y.ident, resolvedMeta.Ident())
 		}
 	} else {
 		y.delegate = y
